@@ -452,6 +452,12 @@ func (n *recNotifier) Notify(ctx context.Context, alerts ...*alert.Alert) (bool,
 	if n.in.Opts.Script != nil {
 		out = n.in.Opts.Script(n.in.Name, n.rcv, n.idx, now, att)
 	}
+	// A delivery takes time. In a virtual-time bubble code runs in zero time, so without this two
+	// deliveries of one group (the last retry of a flush and the first attempt of the next flush, which
+	// was already due) would end at the SAME instant and their notification-log writes would carry equal
+	// timestamps - a tie that the log resolves in favour of the first write and that a real clock cannot
+	// produce.
+	time.Sleep(time.Microsecond)
 	var retry bool
 	var err error
 	switch out.Kind {
